@@ -291,6 +291,9 @@ pub fn run(opts: &Opts, rep: &mut Report) {
         rep.count("cases");
         let (case, norm) = gen_settings(&mut rng);
         let settings = format!("{case:?}/{norm:?}");
+        let reused_ref = &mut reused;
+        crate::refm::guard_case(rep, "C14", &case_id.clone(), move |rep| {
+        let reused = reused_ref;
         match idx % 4 {
             // (a) + (d) + (e): parse == reference parse; reparse on a used object == fresh parse
             0 | 1 => {
@@ -337,7 +340,7 @@ pub fn run(opts: &Opts, rep: &mut Report) {
                 let letter = *rng.pick(&['a', 'b', 'x']);
                 if !p.contains(letter) || p.contains(letter.to_ascii_uppercase()) {
                     rep.count("c14.metamorphic-skipped");
-                    continue;
+                    return;
                 }
                 let u = *rng.pick(UNCASED);
                 let p2: String = p.chars().map(|c| if c == letter { u } else { c }).collect();
@@ -416,6 +419,7 @@ pub fn run(opts: &Opts, rep: &mut Report) {
                 }
             }
         }
+        });
     }
     let _ = J::Null;
 }
